@@ -371,3 +371,38 @@ def gen_C02_base(seed):
 
 
 GENERATORS["C02"] = gen_C02_base
+
+
+def gen_C06(seed):
+    r = sub(seed, "ops")
+    fams = r.choice([ALL_FAMS, CHEAP_FAMS, CHEAP_FAMS])
+    with_events = r.random() < 0.35
+    scn, direction = base_scenario(seed, "C06", fams, dense=True, family="osc" if with_events else None, max_steps=25,
+                                   want={"exact"} if r.random() < 0.5 else None)
+    s = scn["system"]
+    t0, tf = s["t0"], s["tf"]
+    L = abs(tf - t0)
+    if with_events:
+        scn["events"] = gen_events(r, scn, r.choice([1, 2, 3]), terminal_prob=0.5)
+    nops = r.choice([1, 2, 2, 3])
+    ops = []
+    cur = t0
+    for j in range(nops):
+        op = {"op": "integrate"}
+        if j < nops - 1:
+            op["t"] = round(cur + (tf - cur) * r.uniform(0.2, 0.8), 6)
+            cur = op["t"]
+        if with_events and (r.random() < 0.8):
+            op["events"] = sorted(r.sample(range(len(scn["events"])), r.randint(1, len(scn["events"]))))
+        ops.append(op)
+    scn["ops"] = ops
+    rf = sub(seed, "faults")
+    if rf.random() < 0.3:
+        i = rf.randrange(len(ops))
+        seam = rf.choice(["rhs", "rhs", "event"]) if ops[i].get("events") else "rhs"
+        scn["faults"].append({"op": i, "seam": seam, "at": rf.randrange(1, 150), "kind": rf.choice(["raise", "raise", "kbdint"])})
+        ops.append({"op": "integrate"})
+    return scn
+
+
+GENERATORS["C06"] = gen_C06
